@@ -1139,7 +1139,7 @@ def lock_class_of(fn, l):
         d = ds[0]
         if d[0] == 'call':
             cs = CallSite(fn, d[1], d[2])
-            if cs.matches(('Result::unwrap', 'Result::expect', 'Result::unwrap_or_else', 'Option::unwrap')) and cs.t['a'] and cs.t['a'][0][0] in ('c', 'm'):
+            if cs.matches(('Result::unwrap', 'Result::expect', 'Result::unwrap_or_else', 'Option::unwrap', 'Try::branch')) and cs.t['a'] and cs.t['a'][0][0] in ('c', 'm'):
                 cur = cs.t['a'][0][1][0]
                 continue
             if cs.matches(('Mutex::lock', 'Mutex::try_lock', 'RwLock::read', 'RwLock::write', 'RwLock::try_read', 'RwLock::try_write', 'Condvar::wait', 'Condvar::wait_while', 'Condvar::wait_timeout')):
